@@ -62,10 +62,23 @@ def jobs(ctx):
   return out
 
 
+# The series called 'm' in the programs is really sent as 'm;x': a name that violates the tag rules (C18: rejected by the
+# parser, stored exactly as received).  Every store AND every cache query for it goes through the real name handling.
+RENAME = {'m': 'm;x'}
+
+
+def rename(x):
+  if isinstance(x, str):
+    return RENAME.get(x, x)
+  if isinstance(x, (list, tuple)):
+    return type(x)(rename(y) for y in x)
+  return x
+
+
 def run(ctx):
-  js = jobs(ctx)
+  js = [(dict(p, init=rename(p.get('init', [])), reactor=rename(p['reactor'])), b) for p, b in jobs(ctx)]
   cacheh.run_jobs(ctx, js, 'C02')
-  cacheseq.run(ctx, oracles=('c02',), depth=ctx.pick(5, 7), strategies=STRATEGIES, max_cache=None)
+  cacheseq.run(ctx, oracles=('c02',), depth=ctx.pick(5, 7), strategies=STRATEGIES, max_cache=None, metrics=('m;x', 'n', 'o'))
   ctx.add(bounds={'preemptions_key_programs': ctx.pick(2, 3), 'preemptions_covering_programs': ctx.pick(1, 2),
                   'opcode_granularity_preemptions': ctx.pick(0, 1), 'program_length': ctx.pick(3, 4),
                   'drains': ctx.pick(2, 3), 'strategies': list(STRATEGIES)})
